@@ -288,6 +288,8 @@ def list_method(ip, st, lref: LRef, name, args, kwargs):
     n = Q.seq_len(s)
     if name == "append":
         lref.seq = Q.seq_append(s, Q.row_value(args[0]) if Q.is_nested(s) else args[0])
+        if getattr(args[0], "shared", False):
+            lref.rows_shared = True  # it now holds a row object that another list holds too (seqs.row_value)
         return None
     if name == "extend" or name == "__iadd__":
         if Q.is_nested(s):
@@ -301,6 +303,8 @@ def list_method(ip, st, lref: LRef, name, args, kwargs):
         i = st.force(args[0])
         k = ite(V._cmp("<", i, 0), imax(i + n, 0), imin(i, n))
         lref.seq = Q.seq_insert(s, k, Q.row_value(args[1]) if Q.is_nested(s) else args[1])
+        if getattr(args[1], "shared", False):
+            lref.rows_shared = True
         return None
     if name == "pop":
         i = st.force(args[0]) if args else -1
